@@ -197,6 +197,17 @@ fn func_sign_ext(_ctx: &EvalContext, _args: &[Expr]) -> Result<i64, ExprError> {
 }
 
 impl Expr {
+    /// The names of all variables and signals referenced by the expression
+    pub(crate) fn names(&self) -> Vec<&str> {
+        match self {
+            Self::Number(_) => vec![],
+            Self::Variable(name) => vec![name],
+            Self::UnaryOp { op: _, expr } => expr.names(),
+            Self::BinOp { op: _, left, right } => [left.names(), right.names()].concat(),
+            Self::Func { name: _, args } => args.iter().flat_map(Self::names).collect(),
+        }
+    }
+
     pub(crate) fn eval(&self, ctx: &EvalContext) -> Result<i64, ExprError> {
         match self {
             Self::Number(n) => Ok(*n),
